@@ -5,6 +5,7 @@ from contracts import c17_addloopless as CA
 from contracts import w_reaction_sides as WRS
 from contracts import c17_lrc as LRC
 from contracts import w_model_boundary as WMB
+from contracts import c17_fva_iter as FI
 from props._generic import run_property, replay_with_driver
 
 LEVEL = "other"
@@ -14,11 +15,11 @@ KEYS_MILP = ["add_loopless"]
 
 
 def _lemmas():
-    return C.lemmas() + CA.lemmas()
+    return C.lemmas() + CA.lemmas() + FI.lemmas()
 
 
 def run(rep):
-    run_property(rep, KEYS, hooks=C.HOOKS, lemmas=_lemmas, more=[(KEYS_SOLUTION, CL.HOOKS), (KEYS_MILP, CA.HOOKS), (["Reaction.boundary@getter:body"], WRS.HOOKS), (LRC.KEYS, LRC.HOOKS), (WMB.KEYS, WMB.HOOKS)], explanation=(
+    run_property(rep, KEYS, hooks=C.HOOKS, lemmas=_lemmas, more=[(KEYS_SOLUTION, CL.HOOKS), (KEYS_MILP, CA.HOOKS), (["Reaction.boundary@getter:body"], WRS.HOOKS), (LRC.KEYS, LRC.HOOKS), (WMB.KEYS, WMB.HOOKS), ([FI.KEY], FI.HOOKS)], explanation=(
         "linear_reaction_coefficients(model) (an assumed contract until round 5) is proved against its body with its documented "
         "post-condition unchanged (loop invariant over model.reactions: exactly the reactions whose forward variable has a non-zero "
         "objective coefficient that is the negative of the reverse variable's, value = that coefficient; a new dict; nothing written) "
@@ -56,13 +57,28 @@ def run(rep):
         "indicator when M>=1 - for M<1 the delta_g range 1..M is empty). "
         "NOT proved: that the optimum of the LP / MILP is loop-free and minimal, the objective _add_cycle_free installs, that "
         "numpy.array(<list>) selects exactly the internal columns (opaque conversion), nullspace (SVD) and the adequacy of the "
-        "thresholding, normalize_cutoff's value, loopless_fva_iter, reverting on context exit (C03 / C13): bounded driver (ring "
-        "models in all reversibility patterns against exact LP cycle-removal tests and brute-force sign patterns)."),
+        "thresholding, normalize_cutoff's value, that loopless_fva_iter's value IS the cycle-free extreme, reverting on context exit "
+        "(C03 / C13): bounded driver (ring models in all reversibility patterns against exact LP cycle-removal tests and brute-force "
+        "sign patterns). "
+        "loopless_fva_iter (zero_cutoff None, solution False / True, `current` a finite number, bounds valid, reactions attached, target in "
+        "the model) is proved as bookkeeping + frame: current / sol are read on the untouched model; a boundary target returns them with "
+        "nothing else called; otherwise _add_cycle_free(model, sol.fluxes) is applied by its PROVED contract on the entry bounds in a first "
+        "own context (precondition obliged), ONE solve sees exactly the CycleFreeFlux bounds, reaction.flux of the TARGET is read after it "
+        "and current / sol returned when it is within the cutoff of current; otherwise the target is fixed at (current, current), a second "
+        "solve, the context left, and in a SECOND own context entered on the entry bounds / coefficients / direction every reaction - the "
+        "target included: the step the known finding loopless-fva-too-narrow is about - whose flux is below the cutoff in the first and "
+        "above it in the second solution gets (max(0,lb), min(0,ub)) (loop invariant; ValueError of the bounds setter when 0 is outside "
+        "its bounds is a proved exit), ONE last solve of the entry objective in the entry direction on those bounds, and reaction.flux "
+        "after THAT solve / the Solution of THAT optimize() is returned. On EVERY exit (three returns, OptimizationError from "
+        "reaction.flux / get_solution / optimize, ValueError) the context stack, all reaction and variable bounds, all objective "
+        "coefficients and the direction are as at entry; the final direct write model.objective.direction = objective_dir re-writes the "
+        "entry value and is redundant. The rollback performed by leaving `with model:` is a TRUSTED step here (C03 / C13)."),
         trusted=["the abstraction step only: the ghost flag is_boundary of a symbolic reaction stands for the value proved in contracts/w_reaction_sides.py (Reaction.boundary itself is no longer assumed); optlang objective calls (assumed)", "GLPK (assumed, monitored)",
                  "numpy SVD null space and zero_cutoff thresholding in add_loopless",
                  "sympy as_coefficients_dict of the objective expression = the ghost coefficient map objc restricted to its non-zero entries (leaf of the PROVED linear_reaction_coefficients)",
                  "Model.optimize at the call site = its C04 contract + the Solution get_solution assembles (fluxes keyed by all reaction ids)",
                  "sum() over a dict enumeration = an uninterpreted finite sum SIGMA(key set, summand) (order independence: reals, no rounding)",
+                 "loopless_fva_iter: leaving `with model:` restores bounds, objective coefficients and direction to their values at the matching __enter__ (C03 / C13 A1, applied after the proved C03 contract of Model.__exit__); reaction.flux / get_solution raise exactly for a status without primal values (C04) and otherwise yield a finite number / a Solution keyed by all reaction ids; normalize_cutoff(model, None) is an opaque number",
                  "optlang / numpy / pandas constructors and operators as uninterpreted terms; model.add_cons_vars and "
                  "Constraint.set_linear_coefficients as recorded calls; DictList.__getitem__(int) by its C15 contract as a term"])
 
